@@ -40,7 +40,10 @@ impl ValidatedShred {
     /// Derives the [`SliceCommitment`] from `shred` and uses `cached_commitment`,
     /// the [`SliceCommitment`] of an earlier shred verified for the same slice,
     /// if any, to skip signature verification or detect leader equivocation.
-    /// Signature verification can only be skipped if the two commitments match.
+    /// Signature verification can only be skipped if the two commitments match
+    /// and the shred carries the very signature that was verified for the cached one;
+    /// any other signature over the same commitment is verified in full
+    /// (it is not an equivocation: the leader signed the same commitment).
     ///
     /// # Errors
     ///
@@ -67,24 +70,19 @@ impl ValidatedShred {
         let slice_root = shred.slice_root();
         let msg = SliceCommitment::new(&shred.payload().header, &slice_root);
 
+        // shortcut: same commitment *and* the very signature already verified for it
+        // (on a cache hit alone the signature bytes would never be looked at)
+        if cached_commitment
+            .is_some_and(|cached| cached == &msg && cached.is_verified_signature(&shred.slice_sig))
+        {
+            return Ok(Self { shred, slice_root });
+        }
+        if !shred.slice_sig.verify_bytes(msg.as_ref(), pk) {
+            return Err(ShredValidationError::InvalidSignature);
+        }
         match cached_commitment {
-            Some(cached) => {
-                if cached == &msg {
-                    return Ok(Self { shred, slice_root });
-                }
-                if shred.slice_sig.verify_bytes(msg.as_ref(), pk) {
-                    Err(ShredValidationError::Equivocation)
-                } else {
-                    Err(ShredValidationError::InvalidSignature)
-                }
-            }
-            None => {
-                if shred.slice_sig.verify_bytes(msg.as_ref(), pk) {
-                    Ok(Self { shred, slice_root })
-                } else {
-                    Err(ShredValidationError::InvalidSignature)
-                }
-            }
+            Some(cached) if cached != &msg => Err(ShredValidationError::Equivocation),
+            _ => Ok(Self { shred, slice_root }),
         }
     }
 
@@ -103,9 +101,11 @@ impl ValidatedShred {
     /// Suitable for seeding a cache to short-circuit re-verification
     /// of further shreds in the same slice (see [`ValidatedShred::try_new`]).
     /// Uses the cached Merkle root, so it does not re-derive it from the proof.
+    /// It remembers this shred's (valid) signature, which is what the shortcut compares.
     #[must_use]
     pub fn commitment(&self) -> SliceCommitment {
         SliceCommitment::new(&self.shred.payload().header, &self.slice_root)
+            .with_verified_signature(self.shred.slice_sig)
     }
 
     /// Returns the cached Merkle root of the slice this shred belongs to.
@@ -189,6 +189,33 @@ mod tests {
         // checking different shred with valid signature should detect equivocation
         let res = ValidatedShred::try_new(other_shred, Some(&cached), &other_sk.to_pk());
         assert!(matches!(res, Err(ShredValidationError::Equivocation)));
+    }
+
+    #[test]
+    fn cache_hit_does_not_skip_unverified_signature() {
+        let (shred, sk) = create_random_shred();
+        let pk = sk.to_pk();
+        // the cache as the blockstore seeds it: from a shred that passed validation
+        let validated = ValidatedShred::try_new(shred.clone(), None, &pk).unwrap();
+        let cached = validated.commitment();
+
+        // a genuine shred takes the shortcut: not even the public key is looked at
+        let random_pk = SecretKey::new(&mut rng()).to_pk();
+        assert!(ValidatedShred::try_new(shred.clone(), Some(&cached), &random_pk).is_ok());
+
+        // same commitment, but a signature nobody verified (a relay replaced it):
+        // rejected, and never as equivocation of the leader
+        let mut tampered = shred.clone();
+        tampered.slice_sig = SecretKey::new(&mut rng()).sign_bytes(cached.as_ref());
+        let res = ValidatedShred::try_new(tampered, Some(&cached), &pk);
+        assert!(matches!(res, Err(ShredValidationError::InvalidSignature)));
+
+        // a commitment that does not remember a verified signature never shortcuts
+        let unverified = SliceCommitment::new(&shred.payload().header, &shred.slice_root());
+        assert_eq!(unverified, cached);
+        let res = ValidatedShred::try_new(shred.clone(), Some(&unverified), &random_pk);
+        assert!(matches!(res, Err(ShredValidationError::InvalidSignature)));
+        assert!(ValidatedShred::try_new(shred, Some(&unverified), &pk).is_ok());
     }
 
     #[test]
